@@ -66,7 +66,8 @@ RULE = ("gen(seed): combinator in {multi list/dict, WaitIterator args/kwargs x n
         "set_exception(CancelledError()); for multi also the future of an inner gen.multi / "
         "@gen.coroutine / Task over such an input; optionally a second WaitIterator alive at the "
         "same time over disjoint or overlapping inputs, possibly left undrained, "
-        "completed directly or via call_soon), argument list with duplicates, inputs already done "
+        "completed directly or via call_soon), argument list with duplicates, the caller mutating "
+        "the list/dict it passed to multi after the call (del/add/clear/reorder), inputs already done "
         "before the call, completion script of steps separated by 0 / 1 iteration / idle / k time "
         "units, deadlines placed at completion time -1/0/+1 units, consumer pauses, late+cost tapes. "
         "non-trivial (measured from completion stamps) = multi/WaitIterator: >=2 distinct inputs "
@@ -160,6 +161,10 @@ def gen(rng, tier, index):
                 args2 = rng.sample(args, rng.randint(1, len(args)))
         scn["inputs"] = inputs
         scn["args"] = args
+        if comb == "multi" and rng.random() < 0.2:
+            # the caller mutates the list/dict it passed, after the call, at step `at`
+            scn["mutate"] = {"op": rng.choice(["del", "add", "clear", "reorder"]),
+                             "at": rng.choice([0, 0, 1])}
         scn["form"] = "dict" if rng.random() < 0.4 else "list"
         scn["quiet"] = 1 if rng.random() < 0.3 else 0
         used = sorted(set(args) | set(args2 or ()))
@@ -310,7 +315,7 @@ def _nv(v):
     if isinstance(v, (list, tuple)):
         return tuple(_nv(x) for x in v)
     if isinstance(v, dict):
-        return ("dict",) + tuple((k, _nv(x)) for k, x in v.items())
+        return ("dict",) + tuple(sorted((k, _nv(x)) for k, x in v.items()))
     if isinstance(v, (int, str)) or v is None:
         return v
     return ("obj", type(v).__name__)
@@ -489,6 +494,38 @@ def run(scn, full_log=False):
                     chain["ext"] = ("cancel",)
                 probe("chain_target_settled_between")
 
+        def mutate_container():
+            """The caller changes its own list/dict after multi() returned: the result must
+            still be the call-time sequence / mapping."""
+            ch = S.get("children")
+            op = (scn.get("mutate") or {}).get("op")
+            if ch is None or S.get("mutated") or op not in ("del", "add", "clear", "reorder"):
+                return
+            S["mutated"] = True
+            if outs and outs[0] is not None and not outs[0].done():
+                probe("multi_container_mutated_while_pending")
+            extra = loop.create_future()
+            extra.set_result("X")
+            if isinstance(ch, dict):
+                if op == "del" and ch:
+                    del ch[next(iter(ch))]
+                elif op == "add":
+                    ch["zz"] = extra
+                elif op == "clear":
+                    ch.clear()
+                elif op == "reorder" and ch:
+                    k = next(iter(ch))
+                    ch[k] = ch.pop(k)
+            else:
+                if op == "del" and ch:
+                    del ch[0]
+                elif op == "add":
+                    ch.insert(0, extra)
+                elif op == "clear":
+                    ch.clear()
+                elif op == "reorder" and ch:
+                    ch.append(ch.pop(0))
+
         def observe():
             # premature settling: output done while an input it depends on is not
             if comb == "multi" and outs and outs[0] is not None and S["early"] is None:
@@ -643,6 +680,7 @@ def run(scn, full_log=False):
                     children = {"k%d" % p: futs[a] for p, a in enumerate(args)}
                 else:
                     children = [futs[a] for a in args]
+                S["children"] = children
                 try:
                     outs.append(gen.multi(children, quiet_exceptions=quiet))
                     sync.append(None)
@@ -722,12 +760,17 @@ def run(scn, full_log=False):
             pre_done = [f.done() for f in futs]
             S["pre_done"] = pre_done
             call()
-            for st in scn.get("steps", []):
+            mut_at = (scn.get("mutate") or {}).get("at", 0)
+            for si, st in enumerate(scn.get("steps", [])):
+                if comb == "multi" and si == mut_at:
+                    mutate_container()
                 await gap(st.get("gap", 0))
                 observe()
                 for tok in st.get("fire", []):
                     fire(tok)
                 observe()
+            if comb == "multi":
+                mutate_container()
             await loop.idle()
             observe()
             left = [i for i in range(n) if not bases[i].done()]
